@@ -291,10 +291,40 @@ def known_findings(ev):
                 ev.known_hits[k["signature"]] = k["what"]
 
 
+def work_asets(task):
+    """Address-set expressions (the only values with a non-trivial C++ container behind them that the core
+    generator does not produce), each element pulled one by one and abandoned at every point."""
+    seed, start, count = task
+    ev = Evidence()
+    drv = Driver()
+    from .c16 import SetGen
+    texts = []
+    try:
+        for i in range(start, start + count):
+            rnd = random.Random((seed << 32) ^ (i * 2654435761 & 0xffffffff) ^ 0xA5E7)
+            base = rnd.choice([0, 0, (1 << 32) - 5, (1 << 63) - 5])
+            text, _ = SetGen(rnd, base, 14).expr(rnd.randint(1, 4))
+            text += rnd.choice([" elem", " relem", " range", "", " (|X| X X add)", " dup overlap"])
+            texts.append(text)
+            try:
+                abandon_all(drv, ev, text, "", maxn=6)
+            except DriverCrash as e:
+                ev.violations.append(crash_record("aset", text, e.report))
+            except DriverTimeout:
+                ev.inconc("watchdog")
+            ev.label("aset-expression")
+        leak_gate(drv, ev, "address-set expressions", texts)
+    finally:
+        drv.kill()
+    return ev
+
+
 def main(tier, seed):
     t0 = time.time()
     ev = Evidence()
     known_findings(ev)
+    na = 1200 if tier == "quick" else 30000
+    ev.merge(run_pool(work_asets, [(seed, s_, min(60, na - s_)) for s_ in range(0, na, 60)]))
     ev.merge(run_pool(work_named_arith, [(lo, lo + 400) for lo in range(0, 6400, 400)]))
     ev.merge(run_pool(work_errors, [(lo, lo + 4) for lo in range(0, len(ERROR_TEMPLATES), 4)]))
     ev.extra["error_templates"] = len(ERROR_TEMPLATES)
